@@ -114,7 +114,12 @@ where
             let (rx2, rp2) = ref_leapfrog(&target, &perturb(x, 4.0 * eps_b, 11), &perturb(p, 4.0 * eps_b, 17), eps_used, l);
             let amp = maxdiff(&rx, &rx2).max(maxdiff(&rp, &rp2));
             let scale = maxabs(&rx).max(maxabs(&rp)).max(maxabs(x)).max(1.0);
-            let tol = 32.0 * (l as f64 + 1.0) * amp + 256.0 * eps_b * scale * (l as f64 + 1.0);
+            // three parts: amplified input rounding (shadow trajectory), accumulated rounding of the
+            // updates, and the backend's own error in evaluating the gradient (cancellation inside the
+            // target is not visible to an input perturbation): delta g ~ 256 eps_b (|g| + 1) enters the
+            // momentum with eps and the position with eps^2 at every step
+            let gmax = ref_leapfrog_gmax(&target, x, p, eps_used, l);
+            let tol = 32.0 * (l as f64 + 1.0) * amp + 256.0 * eps_b * scale * (l as f64 + 1.0) + 256.0 * eps_b * (gmax + 1.0) * eps_used.abs() * (1.0 + eps_used.abs()) * (l as f64 + 1.0);
             // beyond the square root of the backend's largest number squares overflow in the backend
             // even where the f64 reference is finite: treated as "reference overflowed"
             let big = if eps_b > 1e-10 { 1e17 } else { 1e150 };
@@ -211,9 +216,12 @@ where
                     let (rx2, rp2) = ref_leapfrog(&target, &perturb(xp, 4.0 * eps_b, 31), &perturb(&negp, 4.0 * eps_b, 37), eps_used, l);
                     let amp = maxdiff(&rx, &rx2).max(maxdiff(&rp, &rp2));
                     let scale = maxabs(x).max(maxabs(p)).max(maxabs(xp)).max(1.0);
+                    let goal = maxabs(x).max(maxabs(p)).max(1.0); // what the way back has to reproduce
+                    let gmax = ref_leapfrog_gmax(&target, xp, &negp, eps_used, l);
                     // forward error is also present in (x', p'): the way back amplifies it once more
-                    let tol = 64.0 * (l as f64 + 1.0) * amp + 1024.0 * eps_b * scale * (l as f64 + 1.0);
-                    if !(tol < 0.05 * scale) || !rx.iter().all(|v| v.is_finite()) {
+                    let tol = 64.0 * (l as f64 + 1.0) * amp + 1024.0 * eps_b * scale * (l as f64 + 1.0) + 1024.0 * eps_b * (gmax + 1.0) * eps_used.abs() * (1.0 + eps_used.abs()) * (l as f64 + 1.0);
+                    let big = if eps_b > 1e-10 { 1e17 } else { 1e150 };
+                    if !(tol < 0.05 * goal) || !rx.iter().chain(rp.iter()).all(|v| v.is_finite() && v.abs() < big) {
                         o.count("not_judged_ill_conditioned", 1);
                         continue;
                     }
